@@ -7,11 +7,25 @@ use tauri_typegen::build::dependency_resolver::{
     Dependency, DependencyNode, DependencyNodeType, DependencyResolver, DependencyType,
 };
 
+/// labels: plain `T<i>` for i < 100; module-qualified spellings of the same last segment for
+/// 100..199 (`a::T<i-100>`) and 200..299 (`b::T<i-200>`) - the struct parser records such labels
+/// for fields typed `models::User`; a label is an opaque key (no normalisation). With two-digit
+/// suffixes the sorted order of the labels is the numeric order of the indices.
 fn name(i: u64) -> String {
-    format!("T{i}")
+    match i {
+        100..=199 => format!("a::T{}", i - 100),
+        200..=299 => format!("b::T{}", i - 200),
+        _ => format!("T{i}"),
+    }
 }
 fn idx(s: &str) -> u64 {
-    s[1..].parse().unwrap()
+    if let Some(r) = s.strip_prefix("a::T") {
+        100 + r.parse::<u64>().unwrap()
+    } else if let Some(r) = s.strip_prefix("b::T") {
+        200 + r.parse::<u64>().unwrap()
+    } else {
+        s[1..].parse().unwrap()
+    }
 }
 
 /// case: {"id", "adj": [[node, [dep, ...]], ...], "req": [node, ...], "reps": k}
